@@ -226,6 +226,11 @@ def setup(concepts, spec):
 
 def cases(tier, seed, spec):
     yield from gen.biglat(tier, sizes=(15, 17), quick_sizes=(14,))
+    # more than 2**15 objects or properties, a few dozen concepts (Lindig needs about a minute per tall case)
+    yield from gen.giant(seed, 1, only='wide')
+    if tier == 'thorough':
+        yield from gen.giant(seed, 3, only='tall')
+        yield from gen.giant(seed + 1, 3, only='wide')
     yield from gen.ctx_stream(tier, seed)
 
 
@@ -328,6 +333,13 @@ def run_case(concepts, case, spec):
         if len(arg) > 2:
             arg.pop(0)
     COL.count('interleaved_lookups')
+    # collections whose iteration itself calls join/meet/traversals on the same lattice
+    # (lattice.join(lattice.join(g) for g in groups) made re-iterable)
+    for _ in range(4):
+        ms = [members[rng.randrange(n)] for _ in range(rng.randint(1, 4))]
+        call(lat.join, common.reentrant_concepts(ms, lat))
+        call(lat.meet, common.reentrant_concepts(ms + ms[:1], lat))
+    COL.count('reentrant_argument_collections')
     # the lattice itself is an Iterable[Concept]; so are its slices and its atoms tuple
     call(lat.join, lat)
     call(lat.meet, lat)
